@@ -306,10 +306,12 @@ func c06Exec(c fw.Case) *fw.Result {
 			if d := pbfw.CompareSeq(want, sr.Objs); d != "" {
 				res.Violatef(key+"/objects", "I/O error at Read call %d (after %d bytes): %s", n, served, d)
 			}
-			if !errors.Is(sr.Err, errInjected) {
+			if sr.Err == nil {
 				// the last call of a clean scan returns io.EOF at a block boundary: an
 				// error there replaces EOF and must be reported as well
 				res.Violatef(key+"/error-lost", "I/O error injected at Read call %d of %d (after %d bytes, %s) but Err() = %v", n, total, served, c06CutClass(f, lay, served), sr.Err)
+			} else if !errors.Is(sr.Err, errInjected) {
+				res.Add("io_error_reported_but_not_identifiable_with_errors_is", 1)
 			}
 			res.Event(int64(len(sr.Objs)) + 1)
 			res.Eval("")
